@@ -16,24 +16,11 @@
 (* value stays an integer (halving never happens twice in a row because    *)
 (* folding adds the two halves back).                                      *)
 (***************************************************************************)
-EXTENDS Integers, Sequences
-
-Sides == {"onesided", "twosided", "centerdc"}
-
-OneLen(n) == IF n % 2 = 0 THEN n \div 2 + 1 ELSE (n + 1) \div 2
-SLen(s, n) == IF s = "onesided" THEN OneLen(n) ELSE n
-
-\* signed bin carried by entry j (1-based) of layout s
-Bin(s, n, j) == IF s = "centerdc" THEN (j - 1) - n \div 2 ELSE j - 1
-
-DefaultSides(dt) == IF dt = "real" THEN "onesided" ELSE "twosided"
-Allowed(dt) == IF dt = "real" THEN Sides ELSE {"twosided", "centerdc"}
-
-IsNyquist(n, k) == n % 2 = 0 /\ k = n \div 2        \* k is a 0-based bin
+EXTENDS AxisIdx, Sequences
 
 \* ---- the four elementary conversions (v is a sequence over the source layout)
-T2C(n, v) == [j \in 1..n |-> v[(((j - 1) - n \div 2) % n) + 1]]
-C2T(n, v) == [k \in 1..n |-> v[(((k - 1) + n \div 2) % n) + 1]]
+T2C(n, v) == [j \in 1..n |-> v[ShiftIdx(n, j - 1) + 1]]
+C2T(n, v) == [k \in 1..n |-> v[UnshiftIdx(n, k - 1) + 1]]
 
 \* unfold: T[0] = O[0]; T[k] = T[n-k] = O[k]/2 for interior k; T[n/2] = O[n/2]
 O2T(n, o) == [k1 \in 1..n |->
@@ -58,6 +45,4 @@ Conv(from, to, n, v) ==
 RECURSIVE SumSeq(_)
 SumSeq(s) == IF s = <<>> THEN 0 ELSE Head(s) + SumSeq(Tail(s))
 
-\* |bin| folded into 0..n/2 (what a one-sided axis shows)
-FoldBin(n, b) == LET m == b % n IN IF m < OneLen(n) THEN m ELSE n - m
 =============================================================================
